@@ -189,6 +189,13 @@ class Environment(object):
     def close(self):
         """Shutdown server"""
 
+        # a server start requested by prepare() may still be in flight:
+        # wait for it, otherwise the server would come up after close() and stay
+        with self.prepare_lock:
+            thread = self.prepare_thread
+            if thread:
+                thread.join()
+
         try:
             self.conn
         except AttributeError:
